@@ -424,3 +424,53 @@ PROPS['C01']['verus_only']['api'] = [r'CacheD::put_or_update$']
 PROPS['C01']['floor'] = {'quick': 15, 'thorough': 19}
 PROPS['C01']['assumptions'] = PROPS['C01']['assumptions'] + API_ASSUME
 PROPS['C01']['explanation'] += (' The weight an upsert asks the worker to charge is pinned by verus:api::CacheD::put_or_update (removing a time-to-live only ever lowers the charged weight).')
+
+
+# C11: the sequential core only (hand-over API -> queue -> worker), under an ASSUMED contract of the crossbeam channel
+PROPS['C11'] = dict(
+    level='proof', title='Writes are applied exactly once, one at a time, in submission order',
+    verus=['worker', 'api'],
+    verus_only={'worker': [r'CommandExecutor::send$', r'verif_worker_step', r'lemma_put_then_delete_leaves_the_key_absent', r'CommandExecutor::put$', r'CommandExecutor::put_with_ttl$', r'CommandExecutor::delete$'],
+                'api': [r'CacheD::put$', r'CacheD::put_with_weight$', r'CacheD::put_with_ttl$', r'CacheD::put_with_weight_and_ttl$', r'CacheD::put_or_update$', r'CacheD::delete$']},
+    kani={'quick': [], 'thorough': []},
+    floor={'quick': 12, 'thorough': 12},
+    anchors=[dict(file='src/cache/command/command_executor.rs', regex=r'thread::spawn\s*\(', count=1, what='exactly one worker thread is spawned (CommandExecutor::spin)'),
+             dict(file='src/cache/command/command_executor.rs', regex=r'\.spin\s*\(', count=1, what='spin is called once, from CommandExecutor::new'),
+             dict(file='src/cache/command/command_executor.rs', regex=r'crossbeam_channel::bounded\s*\(', count=1, what='one bounded channel connects the API to the worker'),
+             dict(file='src/cache/command/command_executor.rs', regex=r'\.recv\s*\(\s*\)', count=1, what='the worker takes one command at a time (a single blocking recv in the loop head)')],
+    assumptions=[CONC] + API_ASSUME + WORKER_ASSUME + STEP_ASSUME + [
+        'crossbeam_channel::bounded (ASSUMED contract, an external dependency): a blocking `send` appends its message at the back exactly once (waiting while the queue is full, dropping nothing), '
+        'fails only when the receiver is gone; `recv` takes from the front; messages of one sender thread keep their order, and a send that returned before another began is ahead of it',
+        'the worker loop is `while let Ok(pair) = receiver.recv() { BODY }` inside the single spawned thread: one recv per iteration (checked syntactically by the extractor and the anchors), BODY is the verified step'],
+    not_covered=['all interleavings of several sender threads with the worker, and the behaviour of a full queue, are the semantics of crossbeam_channel (assumed), NOT explored here',
+                 'the ordering claim across threads rests on the assumed channel contract; nothing here models two threads'],
+    explanation='SEQUENTIAL CORE ONLY, under an assumed channel contract. Verus: every queued API write sends exactly one command describing exactly that write (api unit: the sent sequence grows by one); CommandExecutor::send queues '
+                'exactly that command once, at the back, paired with the very acknowledgement object returned to the caller, and queues nothing on failure; one iteration of the worker loop applies exactly the command it dequeued, '
+                'once, and completes exactly that acknowledgement (nobody else\'s) after the effect; a Put directly followed by a Delete of the same key leaves the key absent and uncharged whatever admission decided (lemma over two steps).',
+)
+
+# C16: the admission policy bumps no statistic itself (a refused put is counted once, by the worker; the weight statistics inside CacheWeight)
+PROPS['C16']['verus'] = ['worker', 'lemmas', 'policy']
+PROPS['C16']['verus_only']['policy'] = [r'AdmissionPolicy::maybe_add', r'AdmissionPolicy::create_space', r'AdmissionPolicy::update', r'AdmissionPolicy::delete_with_hook']
+PROPS['C16']['floor'] = {'quick': 23, 'thorough': 29}
+PROPS['C16']['explanation'] += ' The policy functions themselves leave every counter alone (Verus, policy: the sequence of direct statistic calls is unchanged by maybe_add / create_space / update / delete_with_hook).'
+
+# C15: the hand-over (accept: rule T13 for the crossbeam select!) and one iteration of the consumer thread are under contract too
+PROPS['C15']['verus'] = ['pool', 'api', 'sketch', 'policy']
+PROPS['C15']['verus_only']['pool'] = [r'Buffer::add', r'lemma_flat_push', r'verif_consumer_step']
+PROPS['C15']['verus_only']['policy'] = [r'AdmissionPolicy::accept']
+PROPS['C15']['floor'] = {'quick': 15, 'thorough': 15}
+PROPS['C15']['assumptions'] = [CONC, 'T6 ghost World (batches handed to the consumer, events queued for the consumer thread, direct statistic calls)',
+    'T13: crossbeam `select! { send(s, e) -> r => A, default => B }` is the non-blocking send: A runs with the result when the operation was ready (Ok: queued at the back; Err: receiver gone, nothing queued), '
+    'B when it was not (queue full, nothing queued) - ASSUMED contract of crossbeam_channel',
+    'the consumer thread is `while let Ok(event) = receiver.recv() { BODY }` (one event per iteration, in queue order); `Arc<RwLock<TinyLFU>>::write()` gives exclusive access to the sketch',
+    'Pool::add picks a buffer and calls Buffer::add under its write lock (read, not verified: thread-local RNG + lock guard)']
+PROPS['C15']['not_covered'] = ['"for any number of reading threads" and "a read never blocks" as schedule properties: NOT decided (what is decided: the only channel operation on the read path is the non-blocking select, syntactically)']
+PROPS['C15']['explanation'] = ('SEQUENTIAL ACCOUNTING CHAIN. Verus: every hit of every read variant hands exactly one access record (the hash of that key) to the pool and a miss none (api); Buffer::add keeps every record either buffered or in exactly '
+    'one batch handed to the consumer, in order, and never exceeds its capacity (pool); AdmissionPolicy::accept either queues the batch for the consumer thread and counts its size as added, or does not queue it and counts its size as dropped - '
+    'exactly one of the two, once, and an empty batch / Shutdown is not counted (policy, rule T13); one iteration of the consumer thread records the batch it took exactly once and the Shutdown event records nothing (pool); '
+    'TinyLFU::increment_access advances the window by the batch length and records each hash once (sketch).')
+
+# C17: the configuration builder's setters under their documented preconditions (unit `config`, rules T3 + T14)
+PROPS['C17']['verus'] = PROPS['C17']['verus'] + ['config']
+PROPS['C17']['assumptions'] = PROPS['C17']['assumptions'] + ['T14: `fn f(mut self, ..)` is verified as `fn f(self, ..) { let mut verif_self = self; .. }`; the boxed client closures and the clock are opaque values in unit `config`; usize::is_power_of_two is an uninterpreted predicate']
